@@ -326,6 +326,65 @@ func checkC09(c *Check) {
 					g.freshTemporaries(c, "fresh-temporaries", name+"."+role, fi)
 				}
 			}
+			// JSON struct readers: a field whose key is absent is handled in a block `if !<key seen> { … }` after the key
+			// loop. Such a block resets the field (default value, or a read from a nil lexer) on every path through it: a
+			// path that leaves the field alone keeps the previous object's value
+			if fi := roles["ReadJSONGeneral"]; fi != nil && !g.isNotGeneratedStub(fi) {
+				ir := g.ir(fi)
+				if ir.Recv != nil {
+					var defs func(b Block) (must, may map[string]bool)
+					defs = func(b Block) (map[string]bool, map[string]bool) {
+						must, may := map[string]bool{}, map[string]bool{}
+						for _, n := range b {
+							switch n := n.(type) {
+							case *AssignN:
+								for _, l := range n.LHS {
+									if fl := fieldOf(l); fl != "" && !strings.HasPrefix(fl, "tl2mask") {
+										must[fl], may[fl] = true, true
+									}
+								}
+							case *CallN:
+								for _, o := range g.operandsOfCall(n) {
+									if fl := fieldOf(o); fl != "" && !strings.HasPrefix(fl, "tl2mask") {
+										must[fl], may[fl] = true, true
+									}
+								}
+							case *IfN:
+								m1, y1 := defs(n.Then)
+								m2, y2 := defs(n.Else)
+								// `if item.F != nil { item.F.Reset() }`: a nil pointer already is the empty value
+								if n.Cond.Kind == "cmp" && n.Cond.Op == "!=" && n.Cond.Y == "nil" && !n.Cond.Neg && len(n.Else) == 0 {
+									if fl := fieldOf(n.Cond.X); fl != "" && m1[fl] {
+										m2 = map[string]bool{fl: true}
+									}
+								}
+								for k := range y1 {
+									may[k] = true
+								}
+								for k := range y2 {
+									may[k] = true
+								}
+								for k := range m1 {
+									if m2[k] {
+										must[k] = true
+									}
+								}
+							}
+						}
+						return must, may
+					}
+					for _, n := range ir.Body {
+						in, ok := n.(*IfN)
+						if !ok || in.Cond.Kind != "bool" || !in.Cond.Neg || !localRx.MatchString(in.Cond.X) || len(in.Else) != 0 {
+							continue
+						}
+						must, may := defs(in.Then)
+						for _, fl := range sortedKeys(may) {
+							c.Ob("json-reader/absent-field-reset-on-every-path", name+"."+fl, must[fl], posStr(g.co.Fset, in.Pos), "the block for an absent key resets "+fl+" on every path through it (not only when its field-mask bit is set)")
+						}
+					}
+				}
+			}
 			// builtin collection readers: destination is re-sliced / reallocated / cleared before the fill
 			for _, role := range []string{"ReadTL1", "InternalReadTL2", "ReadJSONGeneral"} {
 				fi := roles[role]
@@ -409,6 +468,7 @@ func checkC09(c *Check) {
 			}
 		}
 	})
+	c.Floor("json-reader/absent-field-reset-on-every-path", 300)
 	c.Floor("must-define/ReadTL1", 200)
 	c.Floor("must-define/InternalReadTL2", 150)
 	c.Floor("must-define/Reset", 200)
